@@ -10,6 +10,7 @@ import (
 	"sort"
 	"strconv"
 	"strings"
+	"time"
 
 	"github.com/hashicorp/eventlogger"
 	"github.com/hashicorp/eventlogger/filters/encrypt"
@@ -148,6 +149,10 @@ func mkTagMap(c *canary, p *prng) (tagMap, []encrypt.PointerTag) {
 	if p.chance(1, 2) {
 		m["list"] = []interface{}{map[string]interface{}{"name": c.prot(), "other": c.prot()}}
 		tags = append(tags, encrypt.PointerTag{Pointer: "/list/0/name", Classification: encrypt.SensitiveClassification})
+		if p.chance(1, 6) {
+			// a bad tag pointer: an index past the end of the list (not "this key is absent"): Process fails
+			tags = append(tags, encrypt.PointerTag{Pointer: pick(p, []string{"/list/1/name", "/list/7", "/list/x/name"}), Classification: encrypt.SecretClassification})
+		}
 	}
 	if p.chance(1, 3) {
 		// a tagged value held through a pointer: filtered in place, still a pointer
@@ -486,7 +491,7 @@ func deepShapes(p *prng, n int, st *stats, oracle func(string, ...any)) {
 		collect(reflect.ValueOf(payload), &inS, &inShape)
 		before, _ := json.Marshal(payload)
 		// the event reaches the filter already formatted (a formatter before it, another pipeline)
-		e := &eventlogger.Event{Type: "t", Payload: payload, Formatted: map[string][]byte{"pre": []byte("abc")}}
+		e := &eventlogger.Event{Type: "t", CreatedAt: time.Unix(1700000000, 12345), Payload: payload, Formatted: map[string][]byte{"pre": []byte("abc"), "empty": {}, "nilv": nil}}
 		got, err := func() (g *eventlogger.Event, er error) {
 			defer func() {
 				if r := recover(); r != nil {
@@ -505,6 +510,11 @@ func deepShapes(p *prng, n int, st *stats, oracle func(string, ...any)) {
 		if string(before) != string(after) {
 			once("C10", kind, "Process modified the payload it was given")
 		}
+		for _, t := range curTags {
+			if (t.Pointer == "/list/1/name" || t.Pointer == "/list/7" || t.Pointer == "/list/x/name") && err == nil {
+				once("C09", kind+"/badptr", fmt.Sprintf("the tag pointer %s does not resolve (index past the end of the list / not an index): a bad tag pointer, yet Process returned no error and forwarded the event", t.Pointer))
+			}
+		}
 		if fw != nil && fw.failed && err == nil {
 			once("C09", kind+"/flaky", fmt.Sprintf("the wrapper failed on Encrypt call %d but Process returned no error: not failing closed", fw.failAt))
 		}
@@ -520,6 +530,11 @@ func deepShapes(p *prng, n int, st *stats, oracle func(string, ...any)) {
 			continue
 		}
 		if got != e {
+			// the envelope of the forwarded event is the input's: type, creation time, format table (entry for
+			// entry, empty entries staying empty and nil ones nil)
+			if got.Type != e.Type || !got.CreatedAt.Equal(e.CreatedAt) || !reflect.DeepEqual(got.Formatted, e.Formatted) {
+				once("C10", kind+"/envelope", fmt.Sprintf("the forwarded event's type / creation time / format table differ from the input's: %q %v %#v", got.Type, got.CreatedAt, got.Formatted))
+			}
 			// the forwarded event is a private copy: what later nodes do to it does not reach the input event
 			got.FormattedAs("probe", []byte("x"))
 			if b, ok := got.Format("pre"); ok && len(b) > 0 {
